@@ -1240,6 +1240,8 @@ def main(outfile):
     py2lean_interval.main_interval(os.path.join(os.path.dirname(outfile), 'TranslatedInterval.lean'), write_if_changed)
     import py2lean_vblk                                          # separate module: Circuit._validate_blk (C15)
     py2lean_vblk.main_vblk(os.path.join(os.path.dirname(outfile), 'TranslatedVblk.lean'), write_if_changed)
+    import py2lean_errreg                                        # separate module: shutdown, wait_init, run() (C09)
+    py2lean_errreg.main_errreg(os.path.join(os.path.dirname(outfile), 'TranslatedErrReg.lean'), sys.modules[__name__])
     import py2lean_wiring                                        # separate module: connect, _finalize, resolver, finalize (C15)
     py2lean_wiring.main_wiring(os.path.join(os.path.dirname(outfile), 'TranslatedWiring.lean'), write_if_changed)
     import py2lean_initsb                                        # separate module: Circuit.init_sblock and the sync loops (C05)
